@@ -1,7 +1,8 @@
 import SqlgrepModel.Lemmas.ParseFuelStmt
-import SqlgrepModel.Lemmas.ParseLocStmt
+import SqlgrepModel.Lemmas.ParseWithinStmt
 import SqlgrepModel.Lemmas.ParseJson
 import SqlgrepModel.Lemmas.Lower
+import SqlgrepModel.Lemmas.ParseTreeLoc
 /-
 C14 — parsing is total: any text yields a statement or a located error (parser part).
 
@@ -206,6 +207,33 @@ theorem lower_invalid_pattern_is_error (regexValid : List Char → Bool) (c : PC
   | ok cols => simp [hall]
   | err e => exact absurd hc (lowerColumns_noErr _ _)
   | panic s => exact absurd hc (hnp s)
+
+/-- **Tree locations are token locations**: every location stored in a tree the parser returns (the statement's
+own location and the location of every expression node) is the location of one of the input tokens. -/
+theorem tree_locations_are_token_locations (T : PrecTables) (toks : List PTok) (t : POp)
+    (h : parseTokens T toks = .tree t) : t.AllLoc (TokLoc toks) := by
+  unfold parseTokens parseTokensFuel at h
+  split at h
+  · simp at h
+  · rename_i t0 ts
+    have hs : PSt.Suffix { cur := t0, rest := ts } (t0 :: ts) := List.suffix_refl _
+    have hp := parseOp_allLoc (T := T) (fuel := fuelBound (t0 :: ts).length) hs
+    split at h
+    · rename_i op s' heq
+      cases h
+      exact hp _ _ heq
+    · simp at h
+    · simp at h
+
+open Lower in
+/-- **Located conversion errors**: the location of every `ConvertParserTreeError` raised on a tree the parser
+returned is the location of one of the input tokens (a node of the tree: an operator, a call, an argument, a
+tuple; or the statement's location for join / HAVING / pattern errors). With `error_location_is_a_token_location`:
+whatever error `parsing::parse` reports after tokenizing, it points at a token of the text. -/
+theorem conversion_error_location_is_a_token_location (T : PrecTables) (regexValid : List Char → Bool)
+    (toks : List PTok) (t : POp) (e : CErr) (h : parseTokens T toks = .tree t)
+    (he : lowerStatement regexValid t = .err e) : e.loc ∈ toks.map (·.loc) :=
+  lowerStatement_errAt regexValid t (tree_locations_are_token_locations T toks t h) e he
 
 /-! Number out of range is not a parser fact: `99999999999999999999` is rejected by the tokenizer (`IntConvertError`,
 `Props/C14Lex.lean`; oracle: the `reject` texts of `harness/src/c14.rs`). An invalid regular expression is a
